@@ -223,12 +223,22 @@ func ensureBinary(mode string) *buildInfo {
 	if err != nil {
 		die(2, "cannot instrument attachment:\n%s", out)
 	}
+	// protocol/model is linked unmodified except for yield hooks inside the ReplyBody methods (so that two
+	// connections' writers can be interleaved inside a handler's reply computation)
+	out, err = run(filepath.Join(verifDir, "sim"), env, instr, "-src", filepath.Join(repoDir, "protocol", "model"), "-dst", filepath.Join(tmp, "model"), "-hookmethods", "ReplyBody")
+	if err != nil {
+		die(2, "cannot instrument protocol/model:\n%s", out)
+	}
 	rep := map[string]string{}
 	for _, pkg := range []string{"service", "attachment"} {
 		ents, _ := os.ReadDir(filepath.Join(tmp, pkg))
 		for _, e := range ents {
 			rep[filepath.Join(verifDir, "sim", "gen", pkg, e.Name())] = filepath.Join(tmp, pkg, e.Name())
 		}
+	}
+	ments, _ := os.ReadDir(filepath.Join(tmp, "model"))
+	for _, e := range ments {
+		rep[filepath.Join(repoDir, "protocol", "model", e.Name())] = filepath.Join(tmp, "model", e.Name())
 	}
 	ob, _ := json.Marshal(map[string]any{"Replace": rep})
 	overlay := filepath.Join(tmp, "overlay.json")
